@@ -25,6 +25,7 @@ class Ctx:
         self.hoist = []        # stack of statement lists receiving hoisted declarations
         self.budget = 22       # statements left in this function
         self.deferred_names = set()
+        self.frozen = []       # variables that must not be written here (scrutinee of an enclosing switch)
         self.in_expr = 0       # > 0 while generating the blocks of an if / block / switch EXPRESSION
         self.depth = 0         # block nesting depth
         self.defers = 0        # enclosing blocks of this function that hold a defer
@@ -60,6 +61,7 @@ class ExprGen:
         self.agg_eq_on = True
         self.variant_direct = False
         self.weak_lit_errunion = False
+        self.scrutinee_write = False
 
     # ------------------------------------------------------------------ small helpers
     def use(self, tag):
@@ -128,7 +130,7 @@ class ExprGen:
         for v in self.visible(ctx):
             if min_level is not None and v.level > min_level:
                 continue
-            if writable and v.kind == "global":
+            if writable and (v.kind == "global" or v.name in ctx.frozen):
                 continue
             e = var(v)
             self._walk(ctx, v, e, v.ty, v.mut and v.kind not in ("counter", "param"), 3, out, pred, writable, dyn)
@@ -187,6 +189,8 @@ class ExprGen:
                     idx = self.dyn_index(ctx, n)
                 self._walk(ctx, v, N("index", base=e, idx=idx, ty=b[1]), b[1], w, depth - 1, out, pred, writable, dyn)
         elif k == "ptr":
+            if writable and ctx.frozen:
+                return            # a pointer may alias the frozen variable
             to = b[1]
             tb = self.base(to)
             self._walk(ctx, v, N("deref", e=e, ty=to), to, b[2], 0, out, pred, writable, dyn)
@@ -196,7 +200,7 @@ class ExprGen:
             elif tb[0] == "array":
                 i = self.rng.below(tb[2])
                 self._walk(ctx, v, N("index", base=N("deref", e=e, ty=to), idx=lit(USIZE, i), ty=tb[1]), tb[1], b[2], depth - 1, out, pred, writable, dyn)
-        elif k == "slice" and v.slen:
+        elif k == "slice" and v.slen and not (writable and ctx.frozen):
             i = self.rng.below(v.slen)
             idx = lit(USIZE, i)
             if dyn and self.rng.chance(1, 5):
